@@ -28,6 +28,10 @@ HELPER_CLASSES = {
     "eapply_user": "Eapply_User", "docompress": "Docompress", "dostrip": "Dostrip", "filter_env": "FilterEnv",
 }
 
+# IPC commands that only read the work tree and write to the image
+INSTALL_IPC_COMMANDS = frozenset(["doins", "dodoc", "dohtml", "doinfo", "dodir", "doexe", "dobin", "dosbin", "dolib", "dolib.so",
+                                  "dolib.a", "doman", "domo", "dosym", "dohard", "keepdir"])
+
 DEFAULT_SCOPE = {"desttree": "/usr", "insdesttree": "", "exedesttree": "", "docdesttree": "", "insopts": "-m0644",
                  "diropts": "-m0755", "exeopts": "-m0755", "libopts": "-m0644", "libdir": "lib"}
 
@@ -609,6 +613,8 @@ class Scenario(Hooks):
         self.src_snap = snap(self.work)
         self.post = snap(self.image)
         self.strays = []
+        self.volatile_sources = False
+        self.src_resnaps = 0
         self.all_records = []  # every closed request record, also when run() ends with a harness error
         self.revived = 0
         self.harness_notes = []
@@ -617,6 +623,14 @@ class Scenario(Hooks):
     # hooks
     def before(self, rec):
         rec.pre = self.post
+        # what the source files hold at request time: helpers such as eapply/unpack/filter_env legitimately rewrite the
+        # work tree, so once one of them has run the sources are read again before every request
+        if self.volatile_sources:
+            self.src_snap = snap(self.work)
+            self.src_resnaps += 1
+        rec.src_snap = self.src_snap
+        if rec.frame[0] not in INSTALL_IPC_COMMANDS:
+            self.volatile_sources = True
         rec.outside_pre = snap(self.outside)
         rec.injected = None
         rec.fault_ops = []
